@@ -99,7 +99,44 @@ def entryDispatchModule (args : List String) : String :=
           | _, _ => "bad-case"
   | _ => "bad-case"
 
+/-- what the Valve entries of the three-path check print: the game response (the documented conversion of a protocol
+response; what a Valve game module returns) -/
+def showAsGame : Dispatch.Response → String
+  | .valve r => showGameResponse (Games.gameView r)
+  | .valveGame r => showGameResponse r
+  | r => showDispatchResponse r
+
+def isValveRow (row : Gd.Gen.GameRow) : Bool :=
+  match row.tag with
+  | .valve _ _ _ _ => true
+  | _ => false
+
+/-- `game-generic <id> <port|-> <retries> <script>`: the generic path of a Valve game through the dispatch model, result
+shown through the documented conversion -/
+def entryGameGenericD (args : List String) : String :=
+  match args with
+  | id :: port :: r :: rest =>
+    match ((Gd.Gen.gameDefs.find? (·.id == id)).filter isValveRow).bind Game.ofRow, parsePortArg port, r.toNat?,
+        parseNetArgs rest with
+    | some game, some port, some r, some na =>
+      runQ (generic (dispatchExt na) game port (timeoutOf (some r)) none) na showAsGame
+    | none, _, _, _ => "no-such-valve-game"
+    | _, _, _, _ => "bad-case"
+  | _ => "bad-case"
+
+/-- `game-module <module> <port|-> <script>`: a Valve game module (`game_query_fn!`) through the dispatch model -/
+def entryGameModuleD (args : List String) : String :=
+  match args with
+  | id :: port :: rest =>
+    match ((Gd.Gen.gameMods.find? (·.id == id)).filter fun row => isValveRow row && !row.hand).bind Module.ofRow,
+        parsePortArg port, parseNetArgs rest with
+    | some m, some port, some na => runQ (moduleQuery (dispatchExt na) m port) na showAsGame
+    | none, _, _ => "no-such-valve-game"
+    | _, _, _ => "bad-case"
+  | _ => "bad-case"
+
 def dispatchEntries : List (String × (List String → String)) :=
-  [("dispatch", entryDispatch), ("dispatch-module", entryDispatchModule)]
+  [("dispatch", entryDispatch), ("dispatch-module", entryDispatchModule),
+   ("game-generic", entryGameGenericD), ("game-module", entryGameModuleD)]
 
 end Gd.Run
